@@ -68,9 +68,7 @@ def _unbound(pid, v):
 def _generic_base_resolution(pid, v):
     f = (v["case"].get("facts") or {})
     pat = f.get("generic_inheritance")
-    return pid == "C01" and (
-        (pat in ("typevar-reused", "base-of-nested-arg") and (v["clause"], v["outcome"]) == ("build-failed", "RecursionError"))
-        or (pat == "swapped-order" and (v["clause"], v["outcome"]) == ("encode-raised", "AttributeError")))
+    return pid == "C01" and pat in ("typevar-reused", "base-of-nested-arg") and (v["clause"], v["outcome"]) == ("build-failed", "RecursionError")
 
 
 @scope("F-SCHEMA-LITERAL-UNDER-STRATEGY")
